@@ -1,38 +1,22 @@
 (* C14 - No data races in the concurrent uses the API allows.
-   The protocol-level part of the argument is stated on the LTS of threadpool.c
-   (model/Pool.v): which mutex guards which shared fields (guard_of), mutual exclusion of
-   the emulated mutexes, and that the code following a lock / re-acquisition step runs
-   with that mutex owned by the stepping thread (T14a_lock_partial).
-   NOT proved: the full ownership discipline (T14_statement: every access to the pool's,
-   a queue's or a worker mailbox's fields is made by the owner of its guard or by the
-   worker that owns its mailbox between wake-up and publication), and - outside any model
-   here - that the C code performs only those accesses, that readers are immutable after
-   open, and the one-time CRC dispatch.  Those are decided by ThreadSanitizer runs of real
-   concurrent programs (engine tsan): several caller threads with pooled writers / sorters
-   sharing ONE pool, many threads iterating and querying ONE reader, the process's first
-   checksums computed by several workers at once, mixed.  A TSan report is a concrete racy
-   execution and is reported as the violation with its log. *)
+   PROVED on the LTS of threadpool.c (model/Pool.v), second part of this file (proofs/PoolRace*.v): in every reachable
+   state no two distinct threads have conflicting accesses in flight (T14_race_free and its variants), where the
+   accesses of every code segment are listed per label from threadpool.c (seg_access) and a thread's in-flight
+   segment is the one it entered last (the code after a pthread operation is not atomic); the lockset statement
+   T14_lockset; the unlocked accesses - the worker's mailbox between wake-up and publication, me->running = false of
+   the unordered path, the dispatcher's creation of a worker, resultq_destroy - are covered by the ownership
+   (token) invariant.  T14a_lock_partial (first part) is the elementary mutual-exclusion fact.
+   NOT provable on a model: that the C code performs only the listed accesses, that readers are immutable after
+   open, and the one-time CRC dispatch.  Those are decided by ThreadSanitizer runs of real concurrent programs
+   (engine tsan): several caller threads with pooled writers / sorters sharing ONE pool, many threads iterating and
+   querying ONE reader, the process's first checksums computed by several workers at once, pooled sorters whose last
+   add lands exactly on the spill threshold, mixed.  A TSan report is a concrete racy execution and is reported as
+   the violation with its log. *)
 From Coq Require Import NArith List Lia.
-From Mtbl Require Import model.Bytes model.Pool proofs.PoolSched props.Properties_C13.
+From Mtbl Require Import model.Bytes model.Pool proofs.PoolSched proofs.PoolGuard.
 (* source ties: the statements of the C functions the model follows (gen/Ties.v is regenerated from /repo on every run) *)
 From Mtbl Require props.Ties_C14.
 Local Open Scope N_scope.
-
-(* the mutex that guards the shared fields touched by the code at a label *)
-Definition guard_of (l : label) : option obj :=
-  match l with
-  | D1 _ | P1 | H7 _ _ => Some OPoolM          (* pool->head, pool->count *)
-  | D5 _ i | P3 i | W1 i | W4o i | H4 _ i => Some (OWm i)   (* thr->rq, cb, arg, running, res *)
-  | D7 q _ | F1 q | W4u _ q | H1 q => Some (OQm q)   (* rq->finished, nthreads, head, ptail *)
-  | _ => None
-  end.
-
-Lemma owner_set_same st m t : owner_of (set_owner st m (Some t)) m = Some t.
-Proof.
-  unfold owner_of, set_owner. cbn [ps_owner find fst].
-  assert (E : obj_eqb m m = true) by (destruct m; cbn; try reflexivity; apply PeanoNat.Nat.eqb_refl).
-  rewrite E. reflexivity.
-Qed.
 
 (* T14a: mutual exclusion, and ownership during the code that follows an acquisition *)
 Theorem T14a_lock_partial : forall st t wake stash st' op o stash',
@@ -56,12 +40,220 @@ Proof.
 Qed.
 Print Assumptions T14a_lock_partial.
 
-(* the full lockset statement on the LTS: whenever a step runs the code at a label whose shared
-   fields are guarded by g, the stepping thread owns g while that code runs *)
-Definition T14_statement : Prop :=
-  forall maxt prog s st stash t wake st' op o stash',
-    prun (pool_init maxt prog) [] s = Some (st, stash) ->
-    pstep st t wake stash = Some (st', op, o, stash') ->
-    forall g, guard_of (t_lab (gett st t)) = Some g ->
-      op = KWait \/
-      owner_of (match op with KLock | KReacq => set_owner st o (Some t) | _ => st end) g = Some t.
+(* ======================================================================================= *)
+(* C14 - no data races in the thread pool, on the LTS of threadpool.c (model/Pool.v).
+
+   Definitions (proofs/PoolRaceDefs.v): shared locations [loc], accesses, the accesses of
+   the code segment of each label [seg_access], the segment a thread has most recently
+   entered [inflight] (recovered from its pending operation), [race_free].
+   In the C code the straight-line code that follows a pthread operation is not atomic:
+   in every reachable LTS state each live thread may still be executing the segment it
+   entered last.  A data race = two distinct threads whose in-flight segments access a common
+   location, one access at least being a write.
+
+   PROVED here, for every reachable state:
+     T14_race_free           all accesses; schedules in which a thread starts only after the
+                             pthread_create that creates it has been performed
+     T14_race_free_hb        all schedules, all accesses; the accesses that create a worker / a
+                             queue counted until the created thread has started (inflight_hb)
+     T14_race_free_all_sched all schedules; without the accesses that create a worker / a queue
+                             before pthread_create (the LTS lets the created thread start before
+                             the create step: T14_start_before_create, a modelling artefact)
+     T14_race_free_core      all schedules, weak program contract; without creation and without
+                             the unlocked accesses of resultq_destroy
+     T14_lockset             T14_statement of Properties_C14.v for well-formed schedules
+                             (it is false without: T14_statement_needs_sched_wf)
+     T14_segments_in_flight  the predecessor table of [inflight] is right: after a step, the
+                             accesses of the code that ran (seg_access) are in flight;
+     T14_inflight_stable     and they stay in flight while other threads step. *)
+From Coq Require Import NArith List Lia ZifyBool ZifyN ZifyNat Bool Arith.
+From Mtbl Require Import model.Bytes model.Pool proofs.PoolBase proofs.PoolSched proofs.PoolGuard proofs.PoolInv proofs.PoolLife
+  proofs.PoolStep2 proofs.PoolAbort proofs.PoolRaceDefs proofs.PoolRaceStep proofs.PoolRaceGuard proofs.PoolRaceInv proofs.PoolRace
+  proofs.PoolRaceInvB proofs.PoolRaceInvE proofs.PoolRaceLink proofs.PoolRaceStable.
+Import ListNotations.
+
+
+Lemma race_free_assemble cre ext B st :
+  Inv1 st -> Inv2 st -> InvA st -> InvB st -> (cre = true -> InvK st) -> (ext = true -> InvE B st) ->
+  race_free_gen cre ext st.
+Proof.
+  intros I1 I2 IA IB HK HE. apply (race_free_of_inv cre ext st I1 I2 IA).
+  - intros _. apply (b_worker _ IB).
+  - intros _ x Hx. destruct (b_queue _ IB x Hx) as (_ & H2 & H3 & _). split; assumption.
+  - exact HK.
+  - intros x j Hx. apply (b_hid _ IB x j Hx).
+  - intros He j Hj Hl. destruct (e_dead _ _ (HE He) j Hj (or_intror Hl)) as (H1 & H2 & _ & _ & H5).
+    split; [exact H1|]. split; [exact H2|]. exact H5.
+  - intros He. apply (e_d7s _ _ (HE He)).
+Qed.
+
+(* the full theorem *)
+Theorem T14_race_free : forall maxt prog st stash,
+  prog_wf prog = true -> (N.of_nat (2 * length prog + 1) < 18446744073709551616)%N ->
+  reachable_causal maxt prog st stash ->
+  forall t1 t2, t1 <> t2 -> forall a1 a2, In a1 (inflight st t1) -> In a2 (inflight st t2) -> fst a1 = fst a2 ->
+    snd a1 = false /\ snd a2 = false.
+Proof.
+  intros maxt prog st stash Hp HB Hr.
+  pose proof (reachable_causal_reachable _ _ _ _ Hr) as Hr'.
+  assert (Hp' : prog_wf_weak prog = true) by (apply prog_wf_weaken; exact Hp).
+  destruct (invA_reachable maxt prog st stash Hp' Hr') as (I1 & I2 & IA).
+  destruct (invBE_reachable maxt prog st stash Hp HB Hr') as (_ & _ & IB & IE).
+  pose proof (invK_reachable maxt prog st stash Hp' Hr) as IK.
+  apply (race_free_assemble true true (2 * length prog + 1) st); auto.
+Qed.
+
+(* every schedule (a signal wakes only a thread blocked in a cond_wait): everything except the
+   creation of a worker / a queue before pthread_create *)
+Theorem T14_race_free_all_sched : forall maxt prog st stash,
+  prog_wf prog = true -> (N.of_nat (2 * length prog + 1) < 18446744073709551616)%N ->
+  reachable maxt prog st stash -> race_free_gen false true st.
+Proof.
+  intros maxt prog st stash Hp HB Hr.
+  assert (Hp' : prog_wf_weak prog = true) by (apply prog_wf_weaken; exact Hp).
+  destruct (invA_reachable maxt prog st stash Hp' Hr) as (I1 & I2 & IA).
+  destruct (invBE_reachable maxt prog st stash Hp HB Hr) as (_ & _ & IB & IE).
+  apply (race_free_assemble false true (2 * length prog + 1) st); auto. discriminate.
+Qed.
+
+(* EVERY schedule, all accesses; the creation accesses counted until the created thread starts
+   (inflight_hb, proofs/PoolRaceDefs.v) *)
+Theorem T14_race_free_hb : forall maxt prog st stash,
+  prog_wf prog = true -> (N.of_nat (2 * length prog + 1) < 18446744073709551616)%N ->
+  reachable maxt prog st stash ->
+  forall t1 t2, t1 <> t2 -> forall a1 a2, In a1 (inflight_hb st t1) -> In a2 (inflight_hb st t2) -> fst a1 = fst a2 ->
+    snd a1 = false /\ snd a2 = false.
+Proof.
+  intros maxt prog st stash Hp HB Hr.
+  assert (Hp' : prog_wf_weak prog = true) by (apply prog_wf_weaken; exact Hp).
+  destruct (invA_reachable maxt prog st stash Hp' Hr) as (I1 & I2 & IA).
+  destruct (invBE_reachable maxt prog st stash Hp HB Hr) as (_ & _ & IB & IE).
+  apply (race_free_of_inv_gen (create_pending st) true st I1 I2 IA).
+  - intros x _. apply (b_worker _ IB).
+  - intros x _ Hx. destruct (b_queue _ IB x Hx) as (_ & H2 & H3 & _). split; assumption.
+  - intros x Hc u Hop Ho. unfold create_pending in Hc. rewrite Hop, Ho in Hc. destruct (t_op (gett st u)); try discriminate Hc. reflexivity.
+  - intros x j Hx. apply (b_hid _ IB x j Hx).
+  - intros _ j Hj Hl. destruct (e_dead _ _ IE j Hj (or_intror Hl)) as (H1 & H2 & _ & _ & H5).
+    split; [exact H1|]. split; [exact H2|]. exact H5.
+  - intros _. apply (e_d7s _ _ IE).
+Qed.
+
+(* right after the step that enters a creating segment the created thread has not started:
+   inflight_hb and inflight coincide for the stepping thread *)
+Theorem T14_segments_in_flight_hb : forall maxt prog st stash t wake st' op o stash',
+  prog_wf_weak prog = true -> reachable maxt prog st stash -> wake_ok st t wake ->
+  pstep st t wake stash = Some (st', op, o, stash') -> op <> KWait -> op <> KExit ->
+  t_done (gett st' t) = false ->
+  incl (seg_access (t_lab (gett st t)) st) (inflight_hb st' t).
+Proof.
+  intros maxt prog st stash t wake st' op o stash' Hp Hr W E Hw He Hl.
+  destruct (invB_reachable maxt prog st stash Hp Hr) as (I1 & I2 & IB).
+  pose proof (segments_in_flight st t wake stash st' op o stash' I1 I2 IB W E Hw He Hl) as L.
+  replace (inflight_hb st' t) with (inflight st' t); [exact L|].
+  unfold inflight_hb, inflight. f_equal. symmetry.
+  destruct (pstep_op _ _ _ _ _ _ _ _ E) as (En & -> & ->).
+  destruct (pstep_code_keq _ _ _ _ _ _ _ _ I1 W E Hw He) as [_ K].
+  unfold create_pending. rewrite (keq_op _ _ t K), (keq_obj _ _ t K).
+  pose proof (proj1 (enabled_live _ _ En)) as Ht.
+  rewrite after_gett_self by exact Ht.
+  destruct (t_op (snd (continue st t (t_lab (gett st t))))) eqn:Eop; try reflexivity.
+  destruct (cont_create st t _ Eop) as (Eo & l' & En'). rewrite Eo. rewrite (keq_op _ _ _ K).
+  rewrite after_gett by exact Ht. destruct (Nat.eqb_spec (length (ps_threads st)) t); [lia|].
+  destruct (Nat.ltb_spec (length (ps_threads st)) (length (ps_threads st))); [lia|]. rewrite Nat.sub_diag, En'. reflexivity.
+Qed.
+
+(* creation included, destruction of queues excluded: weak contract, no bound on the program *)
+Theorem T14_race_free_create : forall maxt prog st stash,
+  prog_wf_weak prog = true -> reachable_causal maxt prog st stash -> race_free_gen true false st.
+Proof.
+  intros maxt prog st stash Hp Hr.
+  pose proof (reachable_causal_reachable _ _ _ _ Hr) as Hr'.
+  destruct (invA_reachable maxt prog st stash Hp Hr') as (I1 & I2 & IA).
+  destruct (invB_reachable maxt prog st stash Hp Hr') as (_ & _ & IB).
+  pose proof (invK_reachable maxt prog st stash Hp Hr) as IK.
+  apply (race_free_assemble true false 0 st); auto. discriminate.
+Qed.
+
+Theorem T14_race_free_core : forall maxt prog st stash,
+  prog_wf_weak prog = true -> reachable maxt prog st stash -> race_free_gen false false st.
+Proof.
+  intros maxt prog st stash Hp Hr.
+  destruct (invA_reachable maxt prog st stash Hp Hr) as (I1 & I2 & IA).
+  destruct (invB_reachable maxt prog st stash Hp Hr) as (_ & _ & IB).
+  apply (race_free_assemble false false 0 st); auto; discriminate.
+Qed.
+
+(* modelling artefact: the LTS lets a created thread run before the step of the pthread_create
+   that creates it; then the creator's initialisation of the new object is still in flight.
+   Here: result_handler_init has built the queue (threadpool.c:285-291), pthread_create is
+   pending (:385); the handler thread has started, locked rq->m and evaluated the loop test
+   of resultq_next (:301). *)
+Example T14_start_before_create :
+  let prog := [NewHandler true; Dispatch 0; Finish 0; DestroyPool] in
+  let s := [SRun 1 None; SRun 1 None]%nat in
+  prog_wf prog = true /\ sched_wf (pool_init 1 prog) [] s /\ ~ sched_causal (pool_init 1 prog) [] s /\
+  match prun (pool_init 1 prog) [] s with
+  | Some (st, _) => In (W (LQueue 0)) (inflight st 0) /\ In (R (LQueue 0)) (inflight st 1) /\ ~ race_free st
+  | None => False
+  end.
+Proof.
+  cbv zeta. split; [reflexivity|]. split; [vm_compute; auto|]. split.
+  - vm_compute. intros (H & _). apply (H eq_refl 0%nat). split; reflexivity.
+  - destruct (prun _ _ _) as [[st stash]|] eqn:E; [|vm_compute in E; discriminate].
+    assert (H1 : In (W (LQueue 0)) (inflight st 0)) by (vm_compute in E; inversion E; subst; vm_compute; auto).
+    assert (H2 : In (R (LQueue 0)) (inflight st 1)) by (vm_compute in E; inversion E; subst; vm_compute; auto).
+    split; [exact H1|]. split; [exact H2|]. intros H.
+    destruct (H 0%nat 1%nat ltac:(discriminate) (W (LQueue 0)) (R (LQueue 0)) H1 H2 eq_refl) as [E' _]. discriminate E'.
+Qed.
+
+(* the predecessor table: the accesses of the code run by a step are in flight after it ... *)
+Theorem T14_segments_in_flight : forall maxt prog st stash t wake st' op o stash',
+  prog_wf_weak prog = true -> reachable maxt prog st stash -> wake_ok st t wake ->
+  pstep st t wake stash = Some (st', op, o, stash') -> op <> KWait -> op <> KExit ->
+  t_done (gett st' t) = false ->      (* not: the caller has just finished its program (the model retires it) *)
+  incl (seg_access (t_lab (gett st t)) st) (inflight st' t).
+Proof.
+  intros maxt prog st stash t wake st' op o stash' Hp Hr W E Hw He Hl.
+  destruct (invB_reachable maxt prog st stash Hp Hr) as (I1 & I2 & IB).
+  eapply segments_in_flight; eassumption.
+Qed.
+
+(* ... and remain in flight (the list can only grow) while other threads step *)
+Theorem T14_inflight_stable : forall maxt prog st stash x t wake st' op o stash',
+  prog_wf_weak prog = true -> reachable maxt prog st stash -> wake_ok st x wake ->
+  pstep st x wake stash = Some (st', op, o, stash') -> x <> t ->
+  incl (inflight st t) (inflight st' t).
+Proof.
+  intros maxt prog st stash x t wake st' op o stash' Hp Hr W E Hne.
+  destruct (invB_reachable maxt prog st stash Hp Hr) as (I1 & I2 & IB).
+  eapply inflight_stable; eassumption.
+Qed.
+
+(* the statement is not vacuous: unordered handler, pool of two; both workers are inside the
+   unlocked part of thread_worker (threadpool.c:117-134, me->running = false without the lock)
+   while the dispatcher is inside the rq->m section of threadpool_dispatch (:228-229) *)
+Example T14_three_in_flight :
+  let prog := [NewHandler false; Dispatch 0; Dispatch 0; Finish 0; DestroyPool] in
+  let s := (repeat (SRun 0 None) 16 ++ repeat (SRun 2 None) 3 ++ repeat (SRun 3 None) 3)%nat in
+  match prun (pool_init 2 prog) [] s with
+  | Some (st, _) =>
+    inflight st 0 = [R (LQueue 0); W (LQueue 0)] /\
+    inflight st 2 = [R (LBox 0); W (LBox 0); W (LRun 0)] /\
+    inflight st 3 = [R (LBox 1); W (LBox 1); W (LRun 1)] /\
+    racy_pairs true true st = []
+  | None => False
+  end.
+Proof. vm_compute. repeat split. Qed.
+
+Print Assumptions T14_race_free.
+Print Assumptions T14_race_free_hb.
+Print Assumptions T14_segments_in_flight_hb.
+Print Assumptions T14_race_free_all_sched.
+Print Assumptions T14_race_free_create.
+Print Assumptions T14_race_free_core.
+Print Assumptions T14_lockset.
+Print Assumptions T14_guarded.
+Print Assumptions T14_statement_needs_sched_wf.
+Print Assumptions T14_start_before_create.
+Print Assumptions T14_segments_in_flight.
+Print Assumptions T14_inflight_stable.
